@@ -97,7 +97,12 @@ class Shape:
             tc = {u: {v: z3.Or(tc[u][v], z3.And(tc[u][k], tc[k][v])) for v in T} for u in T}
         cyc = z3.Or([z3.And(reach[u], tc[u][u]) for u in T])
         error = z3.Or([badreq, cyc] + [z3.And(reach[u], bad[u]) for u in T])
-        return {'error': error, 'reach': reach, 'edge': edge, 'outedge': outedge}
+        # effective edges: u waits for the non-aggregate v directly or through a chain of aggregates
+        agg = {u for u in T if self.projects[u[0]]['targets'][u[1]] == 'aggregate'}
+        eff = {u: {v: (edge[u][v] if v not in agg else z3.BoolVal(False)) for v in T} for u in T}
+        for _ in range(len(agg) + 1):
+            eff = {u: {v: z3.Or([eff[u][v]] + [z3.And(edge[u][m], eff[m][v]) for m in agg if m != u]) for v in T} for u in T}
+        return {'error': error, 'reach': reach, 'edge': edge, 'outedge': outedge, 'eff_edge': eff}
 
 
 def shapes(tier):
@@ -113,10 +118,11 @@ def shapes(tier):
                     (None, 's', 'out', 'b.output'), (None, 'a', 'dep', 'g'), (None, 'b', 'dep', 'a::b::c')],
                    ['a', 'g', 's']))
     s.append(Shape('two_projects_overlapping_names', 'r',
-                   {'r': {'dir': '/r', 'targets': {'a': 'build', 'b': 'build', 'x': 'build'}}, 'q': {'dir': '/q', 'targets': {'a': 'build', 'b': 'build'}}},
+                   # (the root project has a target named like the imported project: `q` on the command line is the root target r::q)
+                   {'r': {'dir': '/r', 'targets': {'a': 'build', 'b': 'build', 'q': 'build'}}, 'q': {'dir': '/q', 'targets': {'a': 'build', 'b': 'build'}}},
                    [('r', 'a', 'dep', 'b'), ('r', 'a', 'dep', 'q::b'), ('r', 'a', 'out', 'b.output'), ('q', 'a', 'dep', 'b'), ('q', 'a', 'out', 'b.output'),
-                    ('r', 'b', 'out', 'q::b.output'), ('q', 'b', 'dep', 'r::x'), ('r', 'x', 'dep', 'q::zz'), ('r', 'a', 'dep', 'q::a')],
-                   ['a', 'r::a', 'q::a', 'q::b', 'b']))
+                    ('r', 'b', 'out', 'q::b.output'), ('q', 'b', 'dep', 'r::q'), ('r', 'q', 'dep', 'q::zz'), ('r', 'a', 'dep', 'q::a')],
+                   ['a', 'r::a', 'q::a', 'q::b', 'b', 'q']))
     s.append(Shape('nested_imports_same_target_names', 'r',
                    {'r': {'dir': '/r', 'targets': {'gen': 'build', 'all': 'aggregate'}}, 'q': {'dir': '/r/q', 'targets': {'gen': 'build', 'all': 'aggregate'}},
                     'u': {'dir': '/r/q/u', 'targets': {'gen': 'build'}}},
@@ -290,15 +296,37 @@ def check_shape(arg):
             for k, (g, kv, tv) in m.entries.items():
                 got[tid_key(kv)] = tv
             if prop in ('C09', 'C19'):
+                # What is compared is observable: which build/service targets are resolved, and which build/service targets each
+                # of them waits for (directly or through aggregates). Whether an aggregate is itself an entry of the result or
+                # has been flattened into its dependents is representation, not behaviour.
+                kind_of = lambda u: sh.projects[u[0]]['targets'][u[1]]
                 for u in T:
+                    if kind_of(u) == 'aggregate':
+                        continue
                     present = u in got
                     fail('resolved_set_is_the_dependency_closure', p, orc['reach'][u] != z3.BoolVal(present), 'target %s::%s %s in the result' % (u[0], u[1], 'is' if present else 'is not'))
+                code_deps = {}
                 for u, tv in got.items():
                     md = tv.payload[0].fields['metadata']
-                    deps = {tid_key(d) for _, d in md.fields['dependencies'].items}
-                    for v2 in T:
-                        fail('dependencies_resolved_in_the_declaring_project', p, z3.And(orc['reach'][u], orc['edge'][u][v2] != z3.BoolVal(v2 in deps)),
-                             '%s depends on %s: %s' % (u, v2, v2 in deps))
+                    code_deps[u] = {tid_key(d) for _, d in md.fields['dependencies'].items}
+
+                def code_eff(u, seen=()):
+                    out_ = set()
+                    for d in code_deps.get(u, ()):
+                        if d in T and kind_of(d) == 'aggregate' and d in code_deps and d not in seen:
+                            out_ |= code_eff(d, seen + (d,))
+                        else:
+                            out_.add(d)
+                    return out_
+                for u, tv in got.items():
+                    md = tv.payload[0].fields['metadata']
+                    if kind_of(u) != 'aggregate':
+                        deps = code_eff(u)
+                        for v2 in T:
+                            if kind_of(v2) == 'aggregate':
+                                continue
+                            fail('dependencies_resolved_in_the_declaring_project', p, z3.And(orc['reach'][u], orc['eff_edge'][u][v2] != z3.BoolVal(v2 in deps)),
+                                 '%s waits for %s (directly or through aggregates): %s' % (u, v2, v2 in deps))
                     if md.fields['project_dir'] != sh.projects[u[0]]['dir']:
                         fail('project_dir_of_target', p, z3.BoolVal(True), '%s has dir %s' % (u, md.fields['project_dir']))
             if prop == 'C19':
@@ -314,8 +342,10 @@ def check_shape(arg):
                     want.add(t if pj is None else '%s::%s' % (pj, t))
                     if pj == sh.root_name and pj is not None:
                         want.add(t)
-                if names != want:
-                    fail('accepted_names', p, z3.BoolVal(True), 'accepted names %s, expected %s' % (sorted(names), sorted(want)))
+                # every documented spelling is accepted (names accepted on top of these -- e.g. shorthands -- are not forbidden by the
+                # property; what they resolve to is decided by the MAINRUN obligation engine_gets_exactly_the_requested_roots)
+                if not want <= names:
+                    fail('accepted_names', p, z3.BoolVal(True), 'accepted names %s lack %s' % (sorted(names), sorted(want - names)))
             if prop == 'C13':
                 for u, tv in got.items():
                     if tv.variant == 'Aggregate':
